@@ -24,6 +24,13 @@ pub enum Case {
 
 pub struct C16;
 
+#[derive(Debug, Clone, Copy)]
+pub enum Alias {
+	No,
+	SameObject,
+	PrefixView(usize),
+}
+
 /// Expected remaining segments, or None when no suffix exists.
 pub fn expected_suffix(value_path: &str, prefix_path: &str) -> Option<Vec<String>> {
 	let (va, vs) = segs(value_path);
@@ -69,10 +76,24 @@ both_families! {
 	}
 
 	pub fn check(case: &Case, cx: &mut Ctx) -> Result<bool, Failure> {
+		check_mode(case, Alias::No, cx)
+	}
+
+	/// `Alias::SameObject`: the prefix IS the value (one object); `Alias::PrefixView(k)`: the prefix is the
+	/// first k bytes of the value's own buffer, parsed in place (same start address)
+	pub fn check_mode(case: &Case, alias: Alias, cx: &mut Ctx) -> Result<bool, Failure> {
+		fn pick<'a>(value: &'a str, prefix: &'a str, alias: Alias) -> (&'a str, &'a str) {
+			match alias {
+				Alias::No => (value, prefix),
+				Alias::SameObject => (value, value),
+				Alias::PrefixView(k) => (value, &value[..k]),
+			}
+		}
 		match case {
 			Case::PathSuffix { value, prefix, .. } => {
-				let v = match Path::new(value.as_str()) { Ok(v) => v, Err(_) => return Ok(false) };
-				let p = match Path::new(prefix.as_str()) { Ok(v) => v, Err(_) => return Ok(false) };
+				let (value, prefix) = pick(value, prefix, alias);
+				let v = match Path::new(value) { Ok(v) => v, Err(_) => return Ok(false) };
+				let p = match Path::new(prefix) { Ok(v) => v, Err(_) => return Ok(false) };
 				let exp = expected_suffix(value, prefix);
 				let got = guard(|| v.suffix(p)).map_err(|pi| Failure::new(format!("suffix-panics:{}", pi.loc), format!("Path {:?}.suffix({:?}) panicked: {}", value, prefix, pi.msg)))?;
 				judge_suffix_path("Path::suffix", value, prefix, value, prefix, got.as_ref().map(|b| b.as_str()), &exp)?;
@@ -82,14 +103,15 @@ both_families! {
 				Ok(true)
 			}
 			Case::RefSuffix { full, value, prefix, .. } => {
+				let (value, prefix) = pick(value, prefix, alias);
 				let pv = split(value);
 				let pp = split(prefix);
 				let comp_ok = pv.scheme == pp.scheme && match (&pv.authority, &pp.authority) { (None, None) => true, (Some(a), Some(b)) => pct::equiv_authority(a, b), _ => false };
 				let exp = if comp_ok { expected_suffix(&pv.path, &pp.path) } else { None };
 				macro_rules! go {
 					($T:ty, $what:expr) => {{
-						let v = match <$T>::new(value.as_str()) { Ok(v) => v, Err(_) => return Ok(false) };
-						let p = match <$T>::new(prefix.as_str()) { Ok(v) => v, Err(_) => return Ok(false) };
+						let v = match <$T>::new(value) { Ok(v) => v, Err(_) => return Ok(false) };
+						let p = match <$T>::new(prefix) { Ok(v) => v, Err(_) => return Ok(false) };
 						let got = guard(|| v.suffix(p)).map_err(|pi| Failure::new(format!("suffix-panics:{}", pi.loc), format!("{:?}.suffix({:?}) panicked: {}", value, prefix, pi.msg)))?;
 						judge_suffix_path($what, value, prefix, &pv.path, &pp.path, got.as_ref().map(|t| t.0.as_str()), &exp)?;
 						if let Some((_, q, f)) = &got {
@@ -109,13 +131,14 @@ both_families! {
 				Ok(true)
 			}
 			Case::Base { full, value, .. } => {
+				let value: &str = value;
 				let r = split_ranges(value);
 				let path = &value[r.path.0..r.path.1];
 				let end = match path.rfind('/') { Some(i) => r.path.0 + i + 1, None => r.path.0 };
 				let exp = &value[..end];
 				macro_rules! go {
 					($T:ty, $what:expr) => {{
-						let v = match <$T>::new(value.as_str()) { Ok(v) => v, Err(_) => return Ok(false) };
+						let v = match <$T>::new(value) { Ok(v) => v, Err(_) => return Ok(false) };
 						let b = guard(|| v.base().as_str().to_string()).map_err(|pi| Failure::new(format!("base-panics:{}", pi.loc), format!("{:?}.base() panicked: {}", value, pi.msg)))?;
 						ensure!(b == exp, "base-text", "{}: base of {:?} = {:?}, expected {:?}", $what, value, b, exp);
 						ensure!(<$T>::new(b.as_str()).is_ok(), "base-invalid", "{}: base of {:?} = {:?} is not a valid value of the same type", $what, value, b);
@@ -228,6 +251,27 @@ impl Prop for C16 {
 			cx.class("rejected-by-library");
 			return Ok(());
 		}
+		// the prefix being the value itself (one object), and prefix VIEWS of the value's own buffer
+		{
+			let tag = |f: Failure| Failure::new(format!("aliased:{}", f.sig), format!("(the prefix is the value itself or a view of the value's buffer) {}", f.msg));
+			let (text, valid): (&str, Box<dyn Fn(&str) -> bool>) = match case {
+				Case::PathSuffix { fam, value, .. } => (value, match fam { Fam::Uri => Box::new(|p: &str| iref::uri::Path::new(p).is_ok()), Fam::Iri => Box::new(|p: &str| iref::iri::Path::new(p).is_ok()) }),
+				Case::RefSuffix { fam, full, value, .. } => (value, match (fam, full) {
+					(Fam::Uri, true) => Box::new(|p: &str| iref::Uri::new(p).is_ok()),
+					(Fam::Uri, false) => Box::new(|p: &str| iref::UriRef::new(p).is_ok()),
+					(Fam::Iri, true) => Box::new(|p: &str| iref::Iri::new(p).is_ok()),
+					(Fam::Iri, false) => Box::new(|p: &str| iref::IriRef::new(p).is_ok()),
+				}),
+				Case::Base { .. } => ("", Box::new(|_| false)),
+			};
+			if !matches!(case, Case::Base { .. }) {
+				by_fam!(fam, check_mode(case, Alias::SameObject, cx)).map_err(tag)?;
+				for k in gen::valid_prefix_cuts(text, 5, valid) {
+					by_fam!(fam, check_mode(case, Alias::PrefixView(k), cx)).map_err(tag)?;
+					cx.class("aliased-prefix-view");
+				}
+			}
+		}
 		cx.class("judged");
 		match case {
 			Case::PathSuffix { value, prefix, .. } => {
@@ -249,6 +293,55 @@ impl Prop for C16 {
 			}
 		}
 		Ok(())
+	}
+
+	fn enumerate(_tier: Tier, shard: usize, nshards: usize, f: &mut dyn FnMut(Case, bool) -> bool) -> Vec<&'static str> {
+		// long corresponding segments that are equal once decoded, or differ in exactly one late position:
+		// every length 1..=400, and for three lengths every position of the difference
+		let mut i = 0usize;
+		let mut emit = |value_seg: String, prefix_seg: String, f: &mut dyn FnMut(Case, bool) -> bool| -> bool {
+			for (k, case) in [
+				Case::PathSuffix { fam: Fam::Uri, value: format!("/{value_seg}/t"), prefix: format!("/{prefix_seg}") },
+				Case::PathSuffix { fam: Fam::Iri, value: format!("x/{value_seg}/t/u"), prefix: format!("x/{prefix_seg}/") },
+				Case::RefSuffix { fam: Fam::Iri, full: true, value: format!("s://h/{value_seg}/t?q#f"), prefix: format!("s://h/{prefix_seg}") },
+				Case::RefSuffix { fam: Fam::Uri, full: false, value: format!("//h/a/{value_seg}?q"), prefix: format!("//h/a/{prefix_seg}") },
+			].into_iter().enumerate() {
+				i += 1;
+				let _ = k;
+				if i % nshards != shard {
+					continue;
+				}
+				if !f(case, true) {
+					return false;
+				}
+			}
+			true
+		};
+		for len in 1..=400usize {
+			let plain = format!("A{}", "a".repeat(len));
+			let enc = format!("%41{}", "a".repeat(len));
+			let mut last = enc.clone();
+			last.pop();
+			last.push('b');
+			let mut enc_last = format!("%41{}", "a".repeat(len - 1));
+			enc_last.push_str("%62");
+			for (v, p) in [(enc.clone(), plain.clone()), (plain.clone(), enc.clone()), (enc.clone(), last.clone()), (last.clone(), enc.clone()), (plain.clone(), enc_last.clone()), (enc_last, last.clone())] {
+				if !emit(v, p, f) {
+					return vec![];
+				}
+			}
+		}
+		for len in [100usize, 200, 300] {
+			let enc = format!("%41{}", "a".repeat(len));
+			for j in 0..len {
+				let mut other: Vec<u8> = enc.clone().into_bytes();
+				other[3 + j] = b'b';
+				if !emit(enc.clone(), String::from_utf8(other).unwrap(), f) {
+					return vec![];
+				}
+			}
+		}
+		vec!["corresponding long segments (every length 1..=400) that are equal once decoded or differ only in their last character, in 4 settings; for lengths 100/200/300 the difference at every position"]
 	}
 
 	fn floors(_tier: Tier) -> Vec<(&'static str, u64)> {
